@@ -67,7 +67,7 @@ type event struct {
 	Ev string `json:"ev"`
 	M  int    `json:"m"`
 	OK bool   `json:"ok"`
-	T  int    `json:"t"`
+	T  int    `json:"-"`
 	W  []int  `json:"w"`
 	S  []int  `json:"s"`
 }
@@ -109,7 +109,7 @@ func (r *recorder) log(ev string, m int, ok bool, do func()) {
 	r.mu.Lock()
 	defer r.mu.Unlock()
 	w, s := r.snapshotLocked()
-	r.events = append(r.events, event{K: "ev", Ev: ev, M: m, OK: ok, T: int(time.Since(r.t0) / tick), W: w, S: s})
+	r.events = append(r.events, event{K: "e", Ev: ev, M: m, OK: ok, T: int(time.Since(r.t0) / tick), W: w, S: s})
 	if do != nil {
 		do()
 	}
@@ -232,7 +232,7 @@ func runScenario(t *testing.T, sc scenario) (res runResult) {
 			res.problem = "InitModuleServices: " + err.Error()
 			return
 		}
-		res.hdr = header{K: "hdr", ID: sc.ID, N: sc.N, Edges: append([][2]int{}, sc.Edges...), Svc: []int{}, Blocks: make([]bool, sc.N)}
+		res.hdr = header{K: "h", ID: sc.ID, N: sc.N, Edges: append([][2]int{}, sc.Edges...), Svc: []int{}, Blocks: make([]bool, sc.N)}
 		for m := 1; m <= sc.N; m++ {
 			if w, ok := sm[modName(m)]; ok {
 				r.w[m-1] = w
@@ -320,6 +320,7 @@ type shape struct {
 	n     int
 	edges [][2]int
 	label string
+	kinds []string // preset module kinds (nil: all with a service, plus seeded variants with service-less modules)
 }
 
 // every set of "down" edges (a -> b with b < a) on n modules: contains every DAG shape on n modules
@@ -338,7 +339,7 @@ func allDownGraphs(n int) []shape {
 				es = append(es, p)
 			}
 		}
-		out = append(out, shape{n, es, fmt.Sprintf("down%d/%d", n, mask)})
+		out = append(out, shape{n, es, fmt.Sprintf("down%d/%d", n, mask), nil})
 	}
 	return out
 }
@@ -354,7 +355,7 @@ func randomDAG(rng *rand.Rand, n int, p float64) shape {
 		}
 	}
 	rng.Shuffle(len(es), func(i, j int) { es[i], es[j] = es[j], es[i] })
-	return shape{n, es, fmt.Sprintf("random%d", n)}
+	return shape{n, es, fmt.Sprintf("random%d", n), nil}
 }
 
 func okScript(rng *rand.Rand) script {
@@ -399,10 +400,13 @@ func fill(n, v int) []int {
 
 func namedShapes() []shape {
 	return []shape{
-		{4, [][2]int{{2, 1}, {3, 2}, {4, 3}}, "chain4"},
-		{4, [][2]int{{2, 1}, {3, 1}, {4, 2}, {4, 3}}, "diamond4"},
-		{4, [][2]int{{2, 1}, {3, 2}, {4, 2}}, "deep4"},
-		{4, [][2]int{{3, 1}, {3, 2}, {4, 3}}, "target4"},
+		{4, [][2]int{{2, 1}, {3, 2}, {4, 3}}, "chain4", nil},
+		{4, [][2]int{{2, 1}, {3, 1}, {4, 2}, {4, 3}}, "diamond4", nil},
+		{4, [][2]int{{2, 1}, {3, 2}, {4, 2}}, "deep4", nil},
+		{4, [][2]int{{3, 1}, {3, 2}, {4, 3}}, "target4", nil},
+		// dependencies that are only transitive, through modules without a service
+		{4, [][2]int{{2, 1}, {3, 2}, {4, 3}}, "chain4-hollow", []string{"svc", "nosvc", "noinit", "svc"}},
+		{4, [][2]int{{2, 1}, {3, 1}, {4, 2}, {4, 3}}, "diamond4-hollow", []string{"svc", "nosvc", "noinit", "svc"}},
 	}
 }
 
@@ -415,15 +419,16 @@ func scenarios(t *testing.T, seed int64, thorough bool, emit func(sc scenario, s
 	}
 	if thorough {
 		shapes = append(shapes, allDownGraphs(4)...)
-	} else {
-		shapes = append(shapes, namedShapes()...)
 	}
+	shapes = append(shapes, namedShapes()...)
 	id := 0
 	next := func() int { id++; return id }
 	for _, sh := range shapes {
 		// which modules have a service: all, and (for 3+ modules) one without service / without init function
 		kindsList := [][]string{nil}
-		if sh.n >= 3 {
+		if sh.kinds != nil {
+			kindsList = [][]string{sh.kinds}
+		} else if sh.n >= 3 {
 			hole := 1 + rng.Intn(sh.n)
 			k := make([]string, sh.n)
 			for i := range k {
@@ -473,14 +478,18 @@ func scenarios(t *testing.T, seed int64, thorough bool, emit func(sc scenario, s
 					if h > 40 {
 						h = 40
 					}
-					for k := 0; k <= h+1; k++ { // stop everything at tick k: during start-up, while running, after a failure
+					step, off := 1, 0
+					if !thorough && fk != "none" { // quick tier: every other tick for the faulty variants
+						step, off = 2, rng.Intn(2)
+					}
+					for k := off; k <= h+1; k += step { // stop everything at tick k: during start-up, while running, after a failure
 						sc := base
 						sc.ID = next()
 						sc.StopAt = fill(sh.n, k)
 						sc.Label = base.Label + fmt.Sprintf(" stopall@%d", k)
 						emit(sc, true)
 					}
-					for i := 0; i < 3; i++ { // staggered stops, a late or never started wrapper
+					for i := 0; i < 2; i++ { // staggered stops, a late or never started wrapper
 						sc := base
 						sc.ID = next()
 						sc.StopAt = make([]int, sh.n)
@@ -502,7 +511,7 @@ func scenarios(t *testing.T, seed int64, thorough bool, emit func(sc scenario, s
 		}
 	}
 	// random DAGs on up to 12 modules
-	nr := 60
+	nr := 40
 	if thorough {
 		nr = 600
 	}
